@@ -110,7 +110,7 @@ def schema_ast(draw, max_packages=3, services=True, markers=True):
                 m = {"name": name, "name_class": cls, "fields": [], "nested": [], "enums": [], "oneofs": [], "marker": nxt() if markers else None,
                      "deprecated": draw(st.integers(0, 11)) == 0,
                      "comment": draw(st.sampled_from(["", "", "a message", "multi\nline comment", 'quote " and \\ backslash', "x" * 90, 'ends with a quote "',
-                                                          'has \"\"\" inside', "ends with a backslash \\", "tab\there"]))}
+                                                          'has \"\"\" inside', "ends with a backslash \\", "tab\there", "Gr\u00f6\u00dfe \u2013 \u65e5\u672c\u8a9e \U0001F600"]))}
                 if depth < 2 and draw(st.integers(0, 2)) == 0:
                     m["nested"] = make_msgs(draw(st.integers(1, 2)), depth + 1, used_norm, prefix_path + name)
                 if draw(st.integers(0, 3)) == 0:
@@ -173,7 +173,7 @@ def schema_ast(draw, max_packages=3, services=True, markers=True):
             kind, t = draw(st.one_of(*cands))
             label = draw(st.sampled_from(["single", "single", "optional", "repeated", "map", "oneof" if oneofs else "single"]))
             f = {"name": fname, "name_class": cls, "number": number_pool[i], "kind": kind, "type": t, "label": label,
-                 "comment": draw(st.sampled_from(["", "", "", "field comment", 'say "hi"', "path C:\\dir\\"])),
+                 "comment": draw(st.sampled_from(["", "", "", "field comment", 'say "hi"', "path C:\\dir\\", "\u00e9t\u00e9 \u0416 \u4e8c"])),
                  "deprecated": draw(st.integers(0, 7)) == 0}
             if label == "map":
                 f["key"] = draw(st.sampled_from(KEY_TYPES))
